@@ -1,12 +1,12 @@
 import ExoVerif.Driver.Common
 import ExoVerif.Model.Genesis
 /- driver for the C18 correspondence: the harness describes the cross-module core of the real state before the
-   export (`gen.und`, `gen.q`, `gen.cur`, `gen.prev`, `gen.rev`), `gen.roundtrip` prints what the model says the
-   re-imported chain holds (undelegations with hold counts, dogfood queues, reverse key lookups). -/
+   export (`gen.und`, `gen.q`, `gen.cur`, `gen.prev`, `gen.rev`, `gen.val`), `gen.roundtrip` prints what the model says the
+   re-imported chain holds (undelegations with hold counts, dogfood queues, reverse key lookups, validator set). -/
 namespace ExoVerif.Driver.Genesis
 open ExoVerif.Genesis ExoVerif.Driver
 
-def empty : Core := { unds := [], queues := [], curKeys := [], prevKeys := [], reverse := [], epochs := [] }
+def empty : Core := { unds := [], queues := [], curKeys := [], prevKeys := [], reverse := [], vals := [], epochs := [] }
 
 def insertSorted (x : String) : List String → List String
   | [] => [x]
@@ -18,7 +18,8 @@ def showCore (s : Core) : String :=
   let us := sortStrings (s.unds.map (fun u => s!"{u.id} {u.complete} {u.amount} {u.hold}"))
   let qs := s.queues.map (fun q => s!"{q.pfx} {q.epoch} {q.item}")
   let rs := sortStrings (s.reverse.map (fun r => s!"{r.1} {r.2}"))
-  "und=[" ++ joinWith "," us ++ "] q=[" ++ joinWith "," qs ++ "] rev=[" ++ joinWith "," rs ++ "]"
+  let vs := sortStrings (s.vals.map (fun v => s!"{v.1} {v.2}"))
+  "und=[" ++ joinWith "," us ++ "] q=[" ++ joinWith "," qs ++ "] rev=[" ++ joinWith "," rs ++ "] val=[" ++ joinWith "," vs ++ "]"
 
 def step (s : Core) (w : List String) : Core × String :=
   match w with
@@ -28,6 +29,7 @@ def step (s : Core) (w : List String) : Core × String :=
   | ["gen.q", p, e, it, recs] => ({ s with queues := s.queues ++ [⟨parseNat! p, parseInt! e, it, recs.splitOn "+"⟩] }, "ok")
   | ["gen.cur", op, cons] => ({ s with curKeys := s.curKeys ++ [(op, cons)] }, "ok")
   | ["gen.prev", op, cons] => ({ s with prevKeys := s.prevKeys ++ [(op, cons)] }, "ok")
+  | ["gen.val", cons, pw] => ({ s with vals := s.vals ++ [(cons, parseInt! pw)] }, "ok")
   | ["gen.rev", cons, op] => ({ s with reverse := s.reverse ++ [(cons, op)] }, "ok")
   | ["gen.roundtrip"] => (s, showCore (roundtrip codePrefixes 0 0 s))
   | _ => (s, "bad-op")
